@@ -62,7 +62,9 @@ func (c *Ctx) condInSectionOf(fn *ssa.Function, cond core.Cond, in ssa.Instructi
 
 // sameCriticalSection: a comes before b, the state mutex is held at both, and no path from a to b releases it.
 func (c *Ctx) sameCriticalSection(fn *ssa.Function, a, b ssa.Instruction, ro *atpRoles) bool {
-	if !instrBefore(a, b) || !c.stateLocked(fn, a, ro) || !c.stateLocked(fn, b, ro) {
+	// "before": a dominates b, or at least leads to it (the test sits in one case of a switch that merges before b; that
+	// the fact holds on every path to b is the caller's business, here the question is only the section)
+	if !(instrBefore(a, b) || (a.Block() != b.Block() && blockReaches(a.Block(), b.Block(), nil))) || !c.stateLocked(fn, a, ro) || !c.stateLocked(fn, b, ro) {
 		return false
 	}
 	m := ro.mutexOf[ro.clientT]
